@@ -15,12 +15,13 @@ class Report:
         self.coverage = {}
         self.assumptions = []
         self.level = 'model_checking'
-        self.known = common.load_known()
+        self.known, self.instances = common.load_known()
 
     def add(self, v):
         key = v.get('known') or ''
+        if key and (self.pid, key) in self.instances: key = self.instances[(self.pid, key)]
         if key and (self.pid, key) in self.known:
-            self.known_hits[key] = self.known_hits.get(key, 0) + v.get('count', 1)
+            self.known_hits[key] = self.known_hits.get(key, 0) + max(v.get('count', 1), 1)
         else:
             self.violations.append(v)
 
@@ -178,6 +179,89 @@ def replay_gram(pid, path):
         print('replay: no violation observed'); return 0
     harness_error('no compiled frame for this case')
 
+# ----------------------------------------------------------------------------- E-RX checks
+RX_PROPS = ('C03', 'C04', 'C10', 'C17')
+
+def rx_passes(pid, tier):
+    q = tier == 'quick'
+    if pid == 'C03':
+        return [('pattern ASTs up to %d nodes over 9 atom pools (2-3 atoms; * + ? {0..3} group cat alt); strings<=%d over byte-class representatives; pair BFS over all 256 bytes' % (4 if q else 5, 4),
+                 ['--mode', 'c03', '--K', '4' if q else '5', '--maxlen', '4'])]
+    if pid == 'C04':
+        P = [('ordered term sets of size<=2 from a pool of %d term specs x inputs<=%d over {a,b,c,space,\\n,\\t} x 3 whitespace option combinations' % (12 if q else 30, 4 if q else 5),
+              ['--mode', 'c04', '--setsize', '2', '--pool', '0' if q else '1', '--maxlen', '4' if q else '5'])]
+        if not q: P.append(('ordered term sets of size 3 from the 12-spec pool x inputs<=4', ['--mode', 'c04', '--setsize', '3', '--pool', '0', '--maxlen', '4']))
+        return P
+    if pid == 'C10':
+        return [('3 term sets (single-char, multi-char, multi-line lexemes) x 2 grammars (token list; statements with an error rule) x inputs<=%d over {x,q,;,space,\\t,\\r,\\n} x 3 whitespace option combinations' % (5 if q else 7),
+                 ['--mode', 'c10', '--maxlen', '5' if q else '7'])]
+    if pid == 'C17':
+        P = [('every string of length<=%d over a 21-symbol pattern alphabet offered as a pattern' % (4 if q else 5), ['--mode', 'c17', '--maxlen', '4' if q else '5'])]
+        if not q: P.append(('every string of length<=7 over the 11 metacharacter alphabet', ['--mode', 'c17', '--pool', '1', '--maxlen', '7']))
+        return P
+
+RX_RULE = {
+ 'C03': 'Every pattern AST up to the node bound is printed to the documented syntax and given to the real pattern parser + dfa_builder; the emitted table is explored together with a reference DFA (Thompson NFA + subset construction from the AST) by breadth-first search over reachable state pairs x all 256 byte values, which decides language equality for strings of every length; the shortest distinguishing string is replayed through the real dfa_match. All strings up to the length bound over byte-class representatives are also run through the real dfa_match, a plain table walk and a second (structural) reference matcher. Non-trivial = pattern whose pair exploration visits >= 4 state pairs.',
+ 'C04': 'For every ordered term set the real create_lexer steps are replayed into the lexer table of a compiled list-grammar parser; (1) the merged automaton is explored against the product of per-term reference DFAs over all 256 bytes (recognised term must be the first-listed term whose language contains the prefix, for prefixes of every length); (2) every input up to the bound is parsed by the real parse() under each whitespace option combination and the delivered (term, lexeme slice) sequence or the Unexpected character report is compared with a reference longest-match tokenizer. Non-trivial = inputs yielding >= 2 tokens.',
+ 'C10': 'Every input up to the bound over a whitespace-heavy alphabet, under each whitespace option combination, for term sets with single-character, multi-character and multi-line lexemes, through a token-list grammar and a statement grammar with an error rule; every term value reaching a functor must carry the line/column recomputed from its byte offset, and the complete message stream must equal the one the documented driver + recovery produces on the reference token stream (positions included).',
+ 'C17': 'Every byte string up to the bound is offered as a pattern to the real pattern lexer+parser with both contexts (size analysis and builder) through a checked buffer laid out like cstring_buffer; a three-valued classifier written from the README (VALID / MALFORMED by one of the listed classes / UNSPECIFIED) gives the expected verdict; reads beyond the terminator are recorded. Non-trivial = strings classified MALFORMED or VALID.',
+}
+
+def run_rx(pid, tier, rep, deadline_s):
+    exe = common.build_rx()
+    if isinstance(exe, tuple): harness_error('the white-box harness does not compile against this tree:\n' + exe[1])
+    work = os.path.join(BUILD, 'run-%s-%s' % (pid, tier)); shutil.rmtree(work, ignore_errors=True)
+    tot = {'counters': {}, 'violations': [], 'violation_counts': {}, 'samples': [], 'outcomes': set(), 'crashes': []}
+    bounds = []; exhaustive = True
+    for pi, (label, args) in enumerate(rx_passes(pid, tier)):
+        remaining = deadline_s - (time.time() - rep.t0)
+        if remaining < 5: exhaustive = False; bounds.append({'pass': label, 'completed': False}); continue
+        res = common.run_shards(exe, args + ['--deadline', str(int(remaining))], os.path.join(work, 'p%d' % pi), timeout=remaining + 120)
+        m = common.merge(res)
+        done = not m['deadline_hit'] and not m['timeouts']
+        if not done: exhaustive = False
+        bounds.append({'pass': label, 'completed': done})
+        for k, v in m['counters'].items(): tot['counters'][k] = tot['counters'].get(k, 0) + v
+        for k, v in m['violation_counts'].items(): tot['violation_counts'][k] = tot['violation_counts'].get(k, 0) + v
+        tot['violations'] += [v for v in m['violations'] if v['prop'] == pid]
+        tot['samples'] += m['samples'].get(pid, []); tot['outcomes'] |= m['outcomes'].get(pid, set()); tot['crashes'] += m['crashes']
+    c = tot['counters']
+    emit = os.environ.get('VERIF_EMIT_KNOWN')
+    unlisted = {}
+    shown = {}
+    for v in sorted(tot['violations'], key=lambda v: (len(v['subject']), len(v['input']), v['subject'], v['input'])):
+        key = v['known']
+        rec = dict(v); rec['engine'] = 'rx'; rec['summary'] = '%s | input=%s | %s' % (v['subject'], v['input'], v['detail'])
+        if key and (pid, key) in rep.instances:
+            rep.add(rec); continue
+        if key: unlisted.setdefault(key, v)
+        kk = v['kind']
+        shown[kk] = shown.get(kk, 0) + 1
+        if shown[kk] <= 4: rep.add(rec)
+        elif shown[kk] == 5: rec2 = dict(rec); rec2['summary'] = '(further %s cases suppressed in this listing)' % kk
+    if emit and unlisted:
+        os.makedirs(emit, exist_ok=True)
+        with open(os.path.join(emit, pid + '_instances.txt'), 'w') as f:
+            for key, v in sorted(unlisted.items(), key=lambda kv: (len(kv[1]['subject']), kv[1]['subject'], kv[0])):
+                f.write('%s   # %s | input=%s | %s\n' % (key, v['subject'], v['input'], v['kind']))
+    for cr in tot['crashes']:
+        rep.add({'kind': 'engine-crash', 'known': '', 'engine': 'rx', 'summary': 'the real code crashed (signal %s) in phase %s on %s input(hex) %s' % (cr['signal'], cr['phase'], cr['subject'], cr['input_hex'])})
+    ev = c.get(pid + '.evals', 0)
+    if pid == 'C03':
+        states, trans, nontriv = c.get('pair_states', 0), c.get('pair_edges', 0) + c.get('matches', 0), c.get('C03.equivalent', 0)
+    elif pid == 'C04':
+        states, trans, nontriv = c.get('lexer_product_states', 0), c.get('parses', 0), c.get('termsets', 0)
+    elif pid == 'C10':
+        states, trans, nontriv = c.get('termsets', 0), c.get('parses', 0), c.get('C10.recovered_runs', 0)
+    else:
+        states, trans, nontriv = c.get('C17.evals', 0), c.get('C17.evals', 0) * 2, c.get('C17.malformed', 0) + c.get('C17.valid', 0)
+    rep.coverage = {'states': states, 'transitions': trans, 'traces_validated_against_impl': c.get('matches', 0) + c.get('parses', 0) + (c.get('C17.evals', 0) if pid == 'C17' else 0),
+                    'samples': tot['samples'][:8] or [{'note': 'see counters'}], 'evaluations': ev, 'distinct_nontrivial': nontriv, 'rule': RX_RULE[pid],
+                    'exhaustive': exhaustive, 'bounds': bounds, 'distinct_outcomes': sorted(tot['outcomes'])[:80], 'n_distinct_outcomes': len(tot['outcomes']), 'counters': c,
+                    'what_states_and_transitions_are': {'C03': 'states = reachable (real DFA state, reference DFA state) pairs; transitions = pair edges over all 256 bytes + real dfa_match runs', 'C04': 'states = reachable (lexer state, per-term reference states) product states; transitions = real parses', 'C10': 'states = (term set, grammar) configurations; transitions = real parses', 'C17': 'states = candidate pattern strings; transitions = real pattern-parser runs (two contexts each)'}[pid]}
+    rep.assumptions = ['patterns reach the real front-end through string_view_buffer / a checked user buffer instead of cstring_buffer, and dfa_builder<N> with a large fixed N instead of the predicted size (bound to the user-visible path by the compile-time conformance replays)',
+                       'reference regex semantics: /verif/ref/regex.hpp (two independent matchers cross-checked on every short string)']
+
 # ----------------------------------------------------------------------------- dispatch
 QUICK_DEADLINE, THOROUGH_DEADLINE = 240, 1500
 
@@ -187,6 +271,8 @@ def main(argv):
         if argv[0] == '--setup':
             t = time.time()
             e = common.build_gram('quick')
+            if isinstance(e, tuple): print(e[1]); return 2
+            e = common.build_rx()
             if isinstance(e, tuple): print(e[1]); return 2
             print('setup ok in %.0fs' % (time.time() - t)); return 0
         pid = argv[0]; tier = os.environ.get('VERIF_TIER', 'quick') or 'quick'; replay = None
@@ -202,6 +288,7 @@ def main(argv):
         rep = Report(pid, tier)
         deadline = QUICK_DEADLINE if tier == 'quick' else THOROUGH_DEADLINE
         if pid in GRAM_PROPS: run_gram(pid, tier, rep, deadline)
+        elif pid in RX_PROPS: run_rx(pid, tier, rep, deadline)
         else: print('no check for ' + pid); return 2
         return rep.finish()
     except HarnessError as e:
